@@ -302,7 +302,7 @@ int main(int argc, char **argv)
     ctx.parseArgs(argc, argv);
     Checker ck { ctx, table() };
     const int n = int(ck.tab.size());
-    const int k = ctx.opts.value(QStringLiteral("k"), ctx.thorough() ? QStringLiteral("4") : QStringLiteral("3")).toInt();
+    const int k = ctx.opts.value(QStringLiteral("k"), ctx.thorough() ? QStringLiteral("5") : QStringLiteral("3")).toInt();
 
     if (ctx.replay) {
         std::vector<int> idx;
